@@ -253,7 +253,49 @@ func Engine(v *vrt.Ctx) {
 	v.Cover("C01/engine-history-done")
 }
 
+// BytePage: the page guarantee is about bytes. A page whose value, menu title
+// and sink rows are symbolic *bytes* (any bytes but LF, NUL and '{': multi-byte
+// UTF-8 and invalid sequences included), at a symbolic output size and index.
+func BytePage(v *vrt.Ctx) {
+	text := func(label string, n int) string {
+		b := v.Bytes(label, n)
+		for _, x := range b {
+			v.Assume(x != '\n')
+			v.Assume(x != 0)
+			v.Assume(x != '{')
+		}
+		return string(b)
+	}
+	c := &Cfg{Static: "hd "}
+	c.Size = v.U32("outputsize")
+	v.Assume(c.Size > 0 && c.Size <= 48)
+	c.HasVal, c.Limit = true, 8
+	c.Val = text("value", 1+v.Choice("valuelen", 4))
+	nrows := v.Param("rows")
+	c.HasSink = nrows > 0
+	for i := 0; i < nrows; i++ {
+		c.Rows = append(c.Rows, text("row", 1+v.Choice("rowlen", 3)))
+	}
+	c.Menu = [][2]string{{"0", text("menu-title", 2)}}
+	if c.HasSink {
+		c.Browse = 2
+		c.NextSel, c.NextTtl, c.PrevSel, c.PrevTtl = "1", "n", "2", "p"
+	}
+	idx := uint16(v.Choice("page-index", 3))
+	pg, ok := c.Page(v)
+	v.Assume(ok)
+	out, err := pg.Render(context.Background(), "node", idx)
+	if err != nil {
+		v.Cover("C01/bytes-render-fails")
+		return
+	}
+	v.Observe("len", len(out))
+	v.Assert(uint64(len(out)) <= uint64(c.Size), "C01/byte-page-fits-output-size")
+	v.Cover("C01/bytes-render-ok")
+}
+
 var Harnesses = map[string]func(*vrt.Ctx){
+	"BytePage": BytePage,
 	"Check":  Check,
 	"Page":   Page,
 	"Engine": Engine,
